@@ -115,4 +115,33 @@ CHECKS = {
              "checks": {"quick": 14, "thorough": 150}, "shards": {"quick": 1, "thorough": 4}},
         ],
     },
+    "C20": {
+        "level_text": "Histories of stream opens with arbitrary cluster/shard-id metadata (exhaustive boundary values per key and mode, random int32/int64/malformed/missing/duplicated values) followed by well-formed opens, through the real stream handler wired to a real ReplicationStreamObserver; after every open the observer lock must be free (TryLock, deterministic), nothing may stay listed or registered, and follow-ups must be served.",
+        "technique": "boundary-value enumeration + random histories (rapid) with a deterministic invariant oracle (lock free, bookkeeping empty, follow-up served)",
+        "level": "exploration",
+        "assumptions": [
+            "fake source/target streams end at once; the verdict never depends on a time-out (a real-time backstop only ends a wedged run and maps to exit 2 unless the lock is observably held)",
+            "processes run under RLIMIT_AS 24 GiB so that an unbounded allocation shows up as a crash of the check, not of the sandbox",
+        ],
+        "parts": [
+            {"name": "boundary", "pkg": "proxy", "run": "^TestVF_C20_Boundary$", "rapid": False, "rlimit_as_gb": 24},
+            {"name": "random", "pkg": "proxy", "run": "^TestVF_C20_Random$", "rlimit_as_gb": 24,
+             "checks": {"quick": 1500, "thorough": 15000}, "shards": {"quick": 2, "thorough": 12}},
+        ],
+    },
+    "C06": {
+        "level_text": "Fault enumeration over the real handleStream/StreamForwarder in a virtual-time bubble: generated bidirectional message scripts with stalls and in-flight bursts, one termination event of each of 10 kinds at every position of the script (systematic part) and at random positions; prefix/completeness/ending-together invariants plus goroutine-leak detection at bubble exit.",
+        "technique": "fault-position enumeration over generated scripts (rapid) with history invariants; virtual time via testing/synctest",
+        "level": "fault_enumeration",
+        "assumptions": [
+            "fake streams follow gRPC's contract: Recv/Send fail once the stream context is cancelled; the server stream dies when the handler returns; a stalled consumer resumes 1 virtual second after the termination event (a peer that never reads again keeps the stream legitimately open)",
+            "testing/synctest virtual clock and durable-blocking detection",
+        ],
+        "parts": [
+            {"name": "random", "pkg": "proxy", "run": "^TestVF_C06_Random$",
+             "checks": {"quick": 6000, "thorough": 60000}, "shards": {"quick": 2, "thorough": 8}},
+            {"name": "systematic", "pkg": "proxy", "run": "^TestVF_C06_Systematic$",
+             "checks": {"quick": 60, "thorough": 600}, "shards": {"quick": 4, "thorough": 12}},
+        ],
+    },
 }
